@@ -1,7 +1,7 @@
 (* C07 - The traced schema does not depend on sample order or repetition.
    Model: Trace/Tracer.v (trace, to_field, from_samples), compared with the crate on every run
    (exhaustive leaf pairs x 16 option sets, triples, nested shapes). *)
-From Verif Require Import Tracer Coerce Coerce_proofs CoerceTable CoerceTable_proofs TracerTablesSpec Null_proofs Struct_proofs Project_proofs FlatRecords_proofs.
+From Verif Require Import Tracer Coerce Coerce_proofs CoerceTable CoerceTable_proofs TracerTablesSpec Null_proofs Struct_proofs Project_proofs FlatRecords_proofs Nested_order.
 From Coq Require Import Permutation.
 
 (* Full-strength statement (kept visible): evaluated on the implementation on every run by the
@@ -112,7 +112,7 @@ Proof. exact record_collection_names. Qed.
 Theorem C07_record_projection : forall o d SS n0 t,
   SS <> [] -> Forall (fun fa => NoDup (map fst fa)) SS ->
   trace_seq' o d (map VStruct SS) (Ok (TUnknown n0)) = Ok t ->
-  exists m fs, t = TStruct n0 m (length SS) fs /\
+  exists fs, t = TStruct n0 false (length SS) fs /\
     forall k, match fget2 k fs with
               | Some (tk, _) => vals k SS <> [] /\
                                 exists T, trace_seq' o (S d + count_dots k) (vals k SS) (Ok (TUnknown false)) = Ok T /\ tk = mk (missing k SS) T
@@ -145,6 +145,51 @@ Example C07_tables_example :
     map fname3 fs1 = [b "a"; b "s"; b "b"] /\ map fname3 fs2 = [b "a"; b "s"; b "b"].
 Proof. do 6 eexists. vm_compute. repeat split; reflexivity. Qed.
 
+(* ---- order independence for nested data, to any depth ----
+   Collections built from leaf values, Option / newtype wrappers, sequences and records (distinct keys per record), nested to any depth
+   and homogeneous at every position (class Hom: tables, nested records, lists of records, records with list fields, optional
+   anything): the same samples in ANY order give the same tracer - the same shape, the same primitive types and the same
+   nullability at every position - whenever both orders trace; `teq` is equality up to the order of record fields (which is
+   first-seen, C07_fields_in_first_seen_order) and the internal sample counters.  By induction on the depth from the leaf closed
+   form, trace_mark, the projection theorem for records and its analogue for sequences.  (Tuples, maps traced as maps and enum
+   variants are not in the class: they stay differential.) *)
+Theorem C07_nested_order_independent : forall o n d vs vs' t t',
+  Hom o n vs -> Permutation vs vs' ->
+  trace_seq' o d vs (Ok (TUnknown false)) = Ok t -> trace_seq' o d vs' (Ok (TUnknown false)) = Ok t' -> teq t t'.
+Proof. exact nested_order_independent. Qed.
+
+(* non-vacuity: records with an optional nested record, a list of records and scalar columns; three samples in two orders *)
+Definition c07_s1 : Value := VStruct [(b "id", VInt I32 1); (b "tags", VSeq [VStr (b "x"); VNone]); (b "pos", VSome (VStruct [(b "x", VF64 0); (b "y", VF64 0)]))].
+Definition c07_s2 : Value := VStruct [(b "id", VInt I32 2); (b "pos", VNone); (b "items", VSeq [VStruct [(b "n", VInt U8 1)]; VStruct [(b "n", VInt U8 2); (b "w", VBool true)]])].
+Definition c07_s3 : Value := VSome (VStruct [(b "tags", VSeq []); (b "id", VInt I32 3); (b "items", VSeq [])]).
+Example C07_nested_example :
+  Hom default_opts 3 [c07_s1; c07_s2; c07_s3] /\
+  (exists t t', trace_seq' default_opts 0 [c07_s1; c07_s2; c07_s3] (Ok (TUnknown false)) = Ok t /\
+                trace_seq' default_opts 0 [c07_s3; c07_s1; c07_s2] (Ok (TUnknown false)) = Ok t' /\ t <> t').
+Proof.
+  split.
+  - right. right. exists [[(b "id", VInt I32 1); (b "tags", VSeq [VStr (b "x"); VNone]); (b "pos", VSome (VStruct [(b "x", VF64 0); (b "y", VF64 0)]))];
+                         [(b "id", VInt I32 2); (b "pos", VNone); (b "items", VSeq [VStruct [(b "n", VInt U8 1)]; VStruct [(b "n", VInt U8 2); (b "w", VBool true)]])];
+                         [(b "tags", VSeq []); (b "id", VInt I32 3); (b "items", VSeq [])]].
+    split; [reflexivity|]. split; [repeat constructor; cbn; intuition discriminate|]. intros k.
+    destruct (bytes_eqb (b "id") k) eqn:E1; [apply bytes_eqb_eq in E1; subst k; left; vm_compute; eexists; reflexivity|].
+    destruct (bytes_eqb (b "tags") k) eqn:E2.
+    { apply bytes_eqb_eq in E2. subst k. right. left. exists [[VStr (b "x"); VNone]; []]. split; [reflexivity|]. left. vm_compute. eexists; reflexivity. }
+    destruct (bytes_eqb (b "pos") k) eqn:E3.
+    { apply bytes_eqb_eq in E3. subst k. right. right. exists [[(b "x", VF64 0); (b "y", VF64 0)]]. split; [reflexivity|]. split; [repeat constructor; cbn; intuition discriminate|].
+      intros k'. destruct (bytes_eqb (b "x") k') eqn:F1; [apply bytes_eqb_eq in F1; subst k'; left; vm_compute; eexists; reflexivity|].
+      destruct (bytes_eqb (b "y") k') eqn:F2; [apply bytes_eqb_eq in F2; subst k'; left; vm_compute; eexists; reflexivity|].
+      left. exists []. unfold vals. cbn [flat_map flookup]. rewrite F1, F2. reflexivity. }
+    destruct (bytes_eqb (b "items") k) eqn:E4.
+    { apply bytes_eqb_eq in E4. subst k. right. left. exists [[VStruct [(b "n", VInt U8 1)]; VStruct [(b "n", VInt U8 2); (b "w", VBool true)]]; []]. split; [reflexivity|].
+      right. right. exists [[(b "n", VInt U8 1)]; [(b "n", VInt U8 2); (b "w", VBool true)]]. split; [reflexivity|]. split; [repeat constructor; cbn; intuition discriminate|].
+      intros k'. destruct (bytes_eqb (b "n") k') eqn:F1; [apply bytes_eqb_eq in F1; subst k'; left; vm_compute; eexists; reflexivity|].
+      destruct (bytes_eqb (b "w") k') eqn:F2; [apply bytes_eqb_eq in F2; subst k'; left; vm_compute; eexists; reflexivity|].
+      left. exists []. unfold vals. cbn [flat_map flookup]. rewrite F1, F2. reflexivity. }
+    left. exists []. unfold vals. cbn [flat_map flookup]. rewrite E1, E2, E3, E4. reflexivity.
+  - do 2 eexists. split; [vm_compute; reflexivity|]. split; [vm_compute; reflexivity|]. discriminate.
+Qed.
+
 Print Assumptions C07_leaf_perm_partial.
 Print Assumptions C07_leaf_success_order_free_partial.
 Print Assumptions C07_coerce_arms_match_model.
@@ -152,3 +197,4 @@ Print Assumptions C07_null_commutes_with_any_sample.
 Print Assumptions C07_fields_in_first_seen_order.
 Print Assumptions C07_record_projection.
 Print Assumptions C07_tables_order_independent.
+Print Assumptions C07_nested_order_independent.
